@@ -349,6 +349,11 @@ def main(argv=None):
                 print('detail[%s]: %s' % (r['failure']['key'], json.dumps(r['failure'].get('detail'), default=str)[:3000]))
                 print('VIOLATION property=%s replay=%s' % (pid, path))
                 violations.append({'key': r['failure']['key'], 'replay': path, 'shard': k})
+        known_all = known_keys(pid)
+        for kk, n in sorted(merged.excluded_known.items()):
+            if kk in known_all and n:
+                print('KNOWN-FINDING: property=%s %s [key=%s observed in %d generated cases of this run]' % (
+                    pid, known_all[kk]['what'], kk, n))
         if harness_errors:
             for k, tb in harness_errors[:3]:
                 print('HARNESS-ERROR shard %d:\n%s' % (k, tb), file=sys.stderr)
